@@ -260,6 +260,7 @@ structure DecoratorProg where
   callsWrapped : Bool
   thenInvalidates : Bool
   returnsRv : Bool
+  invalidatesBefore : Bool := false     -- `self._invalidate_cache()` BEFORE the wrapped call (a reader in between refills the fresh cache from the old members)
   deriving DecidableEq, Repr, Inhabited
 
 /-- `@<decorators> def <role>(self, x): self._<appendsTo>.append(x)` -/
